@@ -19,18 +19,52 @@ Everything risky runs in forked grandchildren of the batch process (vf.c04_util.
 from __future__ import annotations
 
 import os
-import random
-import time
+import sys
 
-from ..c04_util import (
+# ---- tuned sanitizer runtime ---------------------------------------------------------
+# The child interpreter runs with PYTHONMALLOC=malloc under the preloaded ASan runtime. With the
+# default 256 MB quarantine and 30-frame allocation stacks every Python object allocation costs
+# microseconds (measured here: imports 29 s -> 4 s CPU, harness loops 13x faster with the options
+# below), and suppress_equal_pcs=1 hides every report after the first that comes from the same pc
+# (all memcpy overflows share one pc inside __asan_memcpy, whatever function called memcpy).
+# None of these options weakens the red-zone checks this property relies on.  When the runner did
+# not pass them, re-execute the same `python -m vf.child ...` command line in place (same pid,
+# same sanitizer log name) before anything heavy is imported.  No-op in the runner process.
+_TUNE = {"quarantine_size_mb": "1", "thread_local_quarantine_size_kb": "16", "malloc_context_size": "0", "suppress_equal_pcs": "0"}
+
+
+def _asan_tuned():
+    have = dict(kv.split("=", 1) for kv in os.environ.get("ASAN_OPTIONS", "").split(":") if "=" in kv)
+    return all(k in have for k in _TUNE), have
+
+
+def _maybe_reexec():
+    if "asan" not in os.environ.get("LD_PRELOAD", "") or os.environ.get("VF_C04_REEXEC"):
+        return
+    tuned, have = _asan_tuned()
+    if tuned or len(sys.argv) < 4 or os.path.basename(sys.argv[0]) != "child.py" or sys.argv[1] != __name__:
+        return
+    env = dict(os.environ)
+    extra = ":".join("%s=%s" % (k, v) for k, v in _TUNE.items() if k not in have)
+    env["ASAN_OPTIONS"] = (env.get("ASAN_OPTIONS", "") + ":" + extra).strip(":")
+    env["VF_C04_REEXEC"] = "1"
+    sys.stdout.flush()
+    sys.stderr.flush()
+    os.execve(sys.executable, [sys.executable, "-m", "vf.child"] + sys.argv[1:4], env)
+
+
+_maybe_reexec()
+
+import random  # noqa: E402
+import time  # noqa: E402
+
+from ..c04_util import (  # noqa: E402
     SUITES,
     Contracts,
     Ref,
     Sandbox,
     SanWatch,
     constants,
-    asan_tuned,
-    maybe_reexec,
     pre_apply,
     pre_decrypt,
     pre_encrypt,
@@ -38,7 +72,7 @@ from ..c04_util import (
     redzone_probe,
     report_violations,
 )
-from ..common import Result, SeededUrandom, exc_signature, exc_witness, prf_bytes
+from ..common import Result, SeededUrandom, prf_bytes  # noqa: E402
 
 PROPERTY = "C04"
 BUILD = "asan"
@@ -111,38 +145,42 @@ W3_STATES = [
 
 def plan(tier, seed):
     quick = tier == "quick"
-    b = [{"gen": "probe"}]
+    b = []
+    # ---- probe + constructors (small parts share one process: start-up under ASan is the main fixed cost)
+    b.append({"gen": "multi", "parts": [{"gen": "probe"}, {"gen": "w1_ctor"}, {"gen": "w2_ctor"}]})
     # ---- W1
-    b.append({"gen": "w1_ctor"})
-    for lo, hi in ((0, 3), (4, 6), (7, 8), (9, 9)):
-        b.append({"gen": "w1_grid", "caps": [lo, hi]})
-    for i in range(6 if quick else 60):
-        b.append({"gen": "w1_seq", "seed": seed * 1000003 + i, "nseq": 60 if quick else 200, "steps": 120})
+    b.append({"gen": "w1_grid", "caps": [0, 6]})
+    b.append({"gen": "w1_grid", "caps": [7, 9]})
+    for i in range(1 if quick else 24):
+        b.append({"gen": "w1_seq", "seed": seed * 1000003 + i, "nseq": 240 if quick else 500, "steps": 120})
     # ---- W2
-    b.append({"gen": "w2_ctor"})
     for s in SUITES:
-        b.append({"gen": "w2_aead", "suite": s, "seed": seed})
-        b.append({"gen": "w2_remove", "suite": s, "seed": seed})
+        b.append({"gen": "multi", "parts": [{"gen": "w2_aead", "suite": s, "seed": seed}, {"gen": "w2_remove", "suite": s, "seed": seed}]})
         if quick:
-            # all payload lengths for a boundary set of header lengths; windows for the others
+            # every payload length for a boundary set of header lengths; boundary windows for all others
             b.append({"gen": "w2_apply", "suite": s, "hlens": [0, 80], "mode": "windows", "seed": seed})
             b.append({"gen": "w2_apply", "suite": s, "hset": [1, 5, 9, 27, 80], "mode": "all", "seed": seed})
         else:
             for lo in range(0, 81, 9):
                 b.append({"gen": "w2_apply", "suite": s, "hlens": [lo, min(lo + 8, 80)], "mode": "all", "seed": seed})
     # ---- W3
-    reps = 1 if quick else 6
-    for r in range(reps):
+    parts = []
+    for r in range(1 if quick else 4):
         for role, state in W3_STATES:
             for v in ("v1", "v2") if (not quick or state in ("first", "connected")) else ("v1",):
-                b.append({"gen": "w3", "role": role, "state": state, "version": v, "seed": seed * 7919 + r,
-                          "n_random": 300 if quick else 2000})
+                parts.append({"gen": "w3", "role": role, "state": state, "version": v, "seed": seed * 7919 + r,
+                              "n_random": 300 if quick else 2000})
+    if quick:
+        for i in range(0, len(parts), 2):
+            b.append({"gen": "multi", "parts": parts[i : i + 2]})
+    else:
+        b.extend(parts)
     # ---- W4
     suites = ["AES_128_GCM_SHA256", "AES_256_GCM_SHA384", "CHACHA20_POLY1305_SHA256"]
     cfgs = []
     if quick:
         for i, mds in enumerate(W4_SIZES):
-            cfgs.append({"mds": mds, "suite": suites[(i + seed) % 3], "cid": (8, 8, 20, 4)[(i + seed) % 4],
+            cfgs.append({"mds": mds, "suite": suites[(i + seed) % 3], "cid": (8, 8, 20, 4, 0)[(i + seed) % 5],
                          "token": (0, 64, 200)[(i // 2 + seed) % 3], "version": "v1" if i % 5 else "v2"})
     else:
         for i, mds in enumerate(W4_SIZES):
@@ -150,15 +188,18 @@ def plan(tier, seed):
                 for cid in (0, 8, 20):
                     tok = (0, 64, 200)[(i + si + cid) % 3]
                     cfgs.append({"mds": mds, "suite": su, "cid": cid, "token": tok, "version": "v1" if (i + si) % 4 else "v2"})
-    per = 6 if quick else 12
-    for i in range(0, len(cfgs), per):
-        b.append({"gen": "w4", "configs": cfgs[i : i + per], "seed": seed * 31 + i})
-    # interleave so that a budget cut-off loses a bit of everything rather than all of W4
-    order = []
+    per = 13 if quick else 16
+    # neighbouring sizes go to different batches so that a skipped batch does not lose a whole range
+    nb = (len(cfgs) + per - 1) // per
+    for k in range(nb):
+        b.append({"gen": "w4", "configs": cfgs[k::nb], "seed": seed * 31 + k})
+    # interleave the workloads so that a budget cut-off loses a bit of everything
     groups = {}
     for x in b:
-        groups.setdefault(x["gen"].split("_")[0], []).append(x)
-    lists = list(groups.values())
+        key = x["gen"] if x["gen"] != "multi" else x["parts"][-1]["gen"]
+        groups.setdefault(key.split("_")[0], []).append(x)
+    lists = [groups[k] for k in sorted(groups)]
+    order = []
     while any(lists):
         for lst in lists:
             if lst:
@@ -172,18 +213,19 @@ def plan(tier, seed):
 
 
 def run_batch(batch):
-    maybe_reexec()  # does not return when it re-executes the child with tuned ASAN_OPTIONS
     res = Result()
     t0 = time.time()
     watch = SanWatch()
-    gen = batch["gen"]
-    cap_s = batch.get("time_cap", 150 if gen != "w4" else 240)
-    sb = Sandbox(res, watch, max_reforks=batch.get("max_reforks", 30), deadline=t0 + cap_s)
-    use_fork = not batch.get("nofork")
-    fn = GENERATORS[gen]
-    if gen == "probe":
-        res.count("asan_options_tuned", 1 if asan_tuned() else 0)
-    fn(batch, res, sb, watch, use_fork)
+    parts = batch["parts"] if batch["gen"] == "multi" else [batch]
+    for part in parts:
+        gen = part["gen"]
+        cap_s = part.get("time_cap", batch.get("time_cap", 200))
+        sb = Sandbox(res, watch, max_reforks=part.get("max_reforks", 30), deadline=time.time() + cap_s)
+        use_fork = not (part.get("nofork") or batch.get("nofork"))
+        if gen == "probe":
+            res.count("asan_options_tuned", 1 if _asan_tuned()[0] else 0)
+        # violations carry `part` (a batch that run_batch executes on its own) as their case
+        GENERATORS[gen](part, res, sb, watch, use_fork)
     # anything the batch process itself produced outside a sandbox (should be nothing)
     if watch.dirty():
         report_violations(res, watch.new_reports(), batch, "batch process:")
@@ -645,8 +687,8 @@ W1_CTOR_CASES = (
 
 
 def gen_w1_ctor(batch, res, sb, watch, use_fork):
-    """each constructor case in a process of its own: Buffer(...) either raises, or yields an object
-    that behaves like a bounded buffer of the requested size"""
+    """Buffer(...) either raises, or yields an object that behaves like a bounded buffer of the
+    requested size (a crash costs one case: the sandbox resumes with the next one)"""
     todo = _only(batch, list(enumerate(W1_CTOR_CASES)))
 
     def fn(ctx, item, local):
@@ -672,7 +714,7 @@ def gen_w1_ctor(batch, res, sb, watch, use_fork):
             else:
                 local.count("w1_invalid_rejected")
                 local.nontrivial.add("w1ctor:%s:rejected:%s" % (_specdesc(spec), name))
-            return "one-per-process"
+            return None
         # constructed: it must be a bounded buffer of the requested size
         want = len(kw["data"]) if "data" in kw else kw.get("capacity", 0)
         chk.trace.append("Buffer(%s) returned" % _specdesc(spec))
@@ -680,7 +722,7 @@ def gen_w1_ctor(batch, res, sb, watch, use_fork):
             capv, tellv = buf.capacity, buf.tell()
         except Exception as exc:
             chk.fail("buffer:ctor:unusable-object", "capacity/tell raised %r after Buffer(%s)" % (exc, _specdesc(spec)))
-            return "one-per-process"
+            return None
         if capv != want or tellv != 0 or want < 0:
             chk.fail("buffer:ctor:unusable-argument-accepted",
                      "Buffer(%s) returned an object with capacity=%r tell()=%r instead of raising" % (_specdesc(spec), capv, tellv))
@@ -691,7 +733,7 @@ def gen_w1_ctor(batch, res, sb, watch, use_fork):
                     buf_call(buf, op, arg)
                 except Exception:
                     pass
-            return "one-per-process"
+            return None
         if want > (1 << 20):
             # large but honoured allocation: only touch both ends
             m = BufModel(cap=0)
@@ -715,7 +757,7 @@ def gen_w1_ctor(batch, res, sb, watch, use_fork):
             except Exception as exc:
                 chk.fail("buffer:ctor:unusable-object", "large buffer (%d) not usable: %r" % (want, exc))
             local.nontrivial.add("w1ctor:%s:large-ok" % _specdesc(spec))
-            return "one-per-process"
+            return None
         m = BufModel(data=kw["data"]) if "data" in kw else BufModel(cap=want)
         local.count("w1_valid_accepted")
         rng = random.Random("w1ctor/%d" % idx)
@@ -724,10 +766,10 @@ def gen_w1_ctor(batch, res, sb, watch, use_fork):
                 break
         chk.check_contents(buf, m)
         local.nontrivial.add("w1ctor:%s:model-ok" % _specdesc(spec))
-        return "one-per-process"
+        return None
 
     sb.max_reforks = len(todo) + 5
-    sb.run(todo, fn, lambda item: _case_of(batch, item[0]), use_fork=use_fork)
+    sb.run(todo, fn, lambda item: _case_of(batch, item[0]), use_fork=use_fork, group_of=lambda item: "ctor:" + _specdesc(item[1]).split("=")[-1][:5])
 
 
 def _specdesc(spec):
@@ -1045,8 +1087,10 @@ def gen_w2_remove(batch, res, sb, watch, use_fork):
     far = [(pl, off) for pl in (0, 20, 96, 1500, 1520, 65535) for off in far_offsets]
     far += [(65535, off) for off in (0, 1, 1479, 1480, 1495, 1496, 1497, 1500, 1600, 65000, 65514, 65515, 65516, 65531, 65535)]
     far += [(pl, off) for pl in (1500, 1516, 1520, 1521, 1600, 2048) for off in (1470, 1480, 1495, 1496, 1497, 1498, 1500, 1501)]
-    allcases = [("near", near[i]) for i in range(len(near))] + [("far", x) for x in far]
-    n_near = len(near)
+    # around PACKET_LENGTH_MAX: an accepted out-of-contract call overruns the scratch buffer by at most 14 bytes
+    mild = [(pl, off) for pl in (1500, 1516, 1517, 1520, 1521, 1540) for off in range(1470, 1511)]
+    allcases = [("near", near[i]) for i in range(len(near))] + [("near", x) for x in mild] + [("far", x) for x in far]
+    n_near = len(near) + len(mild)
 
     def group_of(item):
         _, (pl, off) = item[1]
@@ -1072,7 +1116,7 @@ def gen_w2_remove(batch, res, sb, watch, use_fork):
                                 % (pl, off, len(out[0]), bad), case)
                 ctx.update(_suite_objs(suite))
                 oc = "accepted-" + bad
-            elif tuple(out) != tuple(ctx["ref_hp"].remove(packet, off)):
+            elif off >= 1 and tuple(out) != tuple(ctx["ref_hp"].remove(packet, off)):
                 local.violation("kat:HeaderProtection.remove:result-differs-from-reference",
                                 "HeaderProtection.remove(packet %d, offset %d) differs from the independent implementation" % (pl, off), case)
                 ctx.update(_suite_objs(suite))
@@ -1095,8 +1139,9 @@ def gen_w2_remove(batch, res, sb, watch, use_fork):
     if batch.get("only") is not None:
         sb.run(Indexed(allcases, batch["only"]), fn, lambda item: _case_of(batch, item[0]), setup=setup, use_fork=use_fork, group_of=group_of)
         return
+    seen0 = res.counters.get("violations_seen", 0)
     sb.run(Indexed(allcases, range(n_near)), fn, lambda item: _case_of(batch, item[0]), setup=setup, use_fork=use_fork, group_of=group_of)
-    if res.violations:
+    if res.counters.get("violations_seen", 0) > seen0:
         # far offsets / 64 kB packets would overrun by kilobytes: only meaningful once the near grid is clean
         res.count("w2_far_cases_skipped_after_near_violation", len(far))
     else:
@@ -1107,8 +1152,10 @@ def gen_w2_remove(batch, res, sb, watch, use_fork):
 def gen_w2_ctor(batch, res, sb, watch, use_fork):
     """constructors with every key / iv length and unknown cipher names: either a Python exception
     or an object that works (and matches the reference when the parameters are the standard ones)"""
-    names_aead = [b"aes-128-gcm", b"aes-256-gcm", b"chacha20-poly1305", b"aes-128-ecb", b"no-such-cipher", b"", b"aes-128-gcm\0x"]
-    names_hp = [b"aes-128-ecb", b"aes-256-ecb", b"chacha20", b"aes-128-gcm", b"no-such-cipher", b""]
+    # only the cipher names the library itself uses (aioquic.quic.crypto.CIPHER_SUITES) and unknown names:
+    # handing a non-AEAD cipher to AEAD() is API misuse outside the property's quantifier
+    names_aead = [b"aes-128-gcm", b"aes-256-gcm", b"chacha20-poly1305", b"no-such-cipher", b""]
+    names_hp = [b"aes-128-ecb", b"aes-256-ecb", b"chacha20", b"no-such-cipher", b""]
     cases = [("aead", nm, kl, il) for nm in names_aead for kl in list(range(0, 41)) for il in (0, 1, 8, 11, 12, 13, 16)]
     cases += [("hp", nm, kl, 0) for nm in names_hp for kl in range(0, 70)]
     seq = Indexed(cases, batch.get("only"))
@@ -1161,6 +1208,391 @@ def gen_w2_ctor(batch, res, sb, watch, use_fork):
     sb.run(seq, fn, lambda item: _case_of(batch, item[0]), use_fork=use_fork, group_of=lambda item: "ctor:" + item[1][0])
 
 
+# =====================================================================================
+# W3 - hostile datagrams into real connections
+# =====================================================================================
+
+VERSION_NUM = {"v1": 0x00000001, "v2": 0x6B3343CF}
+LONG_TYPE_BITS = {"v1": {"initial": 0, "0rtt": 1, "handshake": 2, "retry": 3}, "v2": {"initial": 1, "0rtt": 2, "handshake": 3, "retry": 0}}
+
+
+def _varint(v, size=None):
+    from .. import frames as F
+
+    return F.enc_varint(v, size) if size else F.enc_varint(v)
+
+
+def _w3_prepare(batch):
+    """real connections brought into the requested state inside the (clean) batch process"""
+    from aioquic.quic.connection import QuicConnection
+
+    from ..puppet import HandshakePair
+
+    role, state, version = batch["role"], batch["state"], batch["version"]
+    opts = {"versions_client": [version, "v1"] if version == "v2" else ["v1", "v2"],
+            "versions_server": ["v2", "v1"] if version == "v2" else ["v1", "v2"],
+            "original_version": version}
+    pair = HandshakePair(opts, seed=batch["seed"])
+    genuine = []  # datagrams addressed to the victim
+    if state == "first":
+        pair.start()
+        first = [d for d, _a in pair.client.datagrams_to_send(now=0.0)]
+        if role == "server":
+            pair.server = QuicConnection(configuration=pair.scfg, original_destination_connection_id=pair.client_odcid)
+            genuine = first
+    elif state == "mid":
+        pair.start()
+        pair.now += 0.01
+        pair.transfer("client")
+        if role == "client":
+            pair.now += 0.01
+            pending = pair.server.datagrams_to_send(now=pair.now)
+            if pending:
+                pair.wire.append(("server", pending[0][0]))
+                pair.client.receive_datagram(pending[0][0], ("2.3.4.5", 4433), now=pair.now)
+                genuine = [d for d, _a in pending[1:]]
+    else:
+        pair.complete()
+        if state == "keyupdate":
+            peer = pair.server if role == "client" else pair.client
+            peer.request_key_update()
+            peer.send_ping(77)
+            pair.roundtrips(2)
+        # some application traffic so that genuine short-header packets exist
+        peer = pair.server if role == "client" else pair.client
+        sid = peer.get_next_available_stream_id()
+        peer.send_stream_data(sid, prf_bytes("w3", 3000), end_stream=False)
+        pair.roundtrips(2)
+    me = "server" if role == "client" else "client"
+    genuine += [d for snd, d in pair.wire if snd == me]
+    victim = pair.server if role == "server" else pair.client
+    return pair, victim, genuine
+
+
+def _w3_datagrams(batch, pair, victim, genuine):
+    """deterministic list of (kind, description, bytes)"""
+    role, state, version = batch["role"], batch["state"], batch["version"]
+    rng = random.Random("w3/%s/%s/%s/%d" % (role, state, version, batch["seed"]))
+    ver = VERSION_NUM[version]
+    hc = bytes(victim.host_cid)
+    if role == "server" and state == "first":
+        hc = bytes(pair.client_odcid)
+    pc = bytes(victim._peer_cid.cid) if victim._peer_cid.cid else bytes(8)
+    out = []
+
+    def rb(n):
+        return rng.getrandbits(8 * n).to_bytes(n, "big") if n else b""
+
+    # a. short header, every small length
+    lens = list(range(1, 81)) + list(range(81, 2049, 61)) + [1199, 1200, 1201, 1472, 1484, 1485, 1499, 1500, 1501, 1516, 1517, 2048, 4096, 16384, 65527]
+    for L in lens:
+        for cid in ((hc, b"\xEE" * len(hc)) if L < 80 else (hc,)):
+            first = 0x40 | (rng.getrandbits(6) & 0x3F)
+            d = (bytes([first]) + cid + rb(max(0, L - 1 - len(cid))))[:L]
+            out.append(("short", "len=%d cid=%s" % (L, "host" if cid is hc else "unknown"), d))
+
+    # b. long headers: length-field lies and short remainders; c. CID-length lies
+    def long_hdr(ptype, dcid, scid, token=None, dl=None, sl=None):
+        first = 0xC0 | (LONG_TYPE_BITS[version][ptype] << 4) | (rng.getrandbits(4) & 0x0F)
+        h = bytes([first]) + ver.to_bytes(4, "big")
+        h += bytes([len(dcid) if dl is None else dl]) + dcid + bytes([len(scid) if sl is None else sl]) + scid
+        if ptype == "initial":
+            tok = token or b""
+            h += _varint(len(tok)) + tok
+        return h
+
+    pad_to = 1200
+    for ptype in ("initial", "handshake", "0rtt"):
+        for rest in (0, 1, 3, 4, 5, 19, 20, 21, 24, 40, 200):
+            for lie in (None, 0, 1, 3, 4, 16, 19, 20, 21, "rest-1", "rest+1", "rest+1000", 16383, (1 << 30) - 1, (1 << 62) - 1):
+                body = rb(rest)
+                declared = rest if lie is None else (rest - 1 if lie == "rest-1" else rest + 1 if lie == "rest+1" else rest + 1000 if lie == "rest+1000" else lie)
+                if declared < 0:
+                    continue
+                pkt = long_hdr(ptype, hc, pc) + _varint(declared) + body
+                for padded in (False, True):
+                    d = pkt + (bytes(max(0, pad_to - len(pkt))) if padded else b"")
+                    out.append(("long-length", "%s rest=%d declared=%s padded=%s" % (ptype, rest, declared, padded), d))
+    for dl in (0, 1, 8, 20, 21, 255):
+        for sl in (0, 8, 20, 21, 255):
+            for tail in (0, 1, 30, 1200):
+                first_hdr = long_hdr("initial", hc if dl == len(hc) else rb(min(dl, 20)), pc if sl == len(pc) else rb(min(sl, 20)), dl=dl, sl=sl)
+                out.append(("cid-length", "dcil=%d scil=%d tail=%d" % (dl, sl, tail), first_hdr + _varint(max(0, tail - 0)) + rb(tail)))
+
+    # d. Initial packets with tokens around and far beyond the 1500-byte scratch buffer
+    for tl in (0, 1, 63, 64, 200, 1000, 1400, 1450, 1460, 1470, 1475, 1480, 1485, 1490, 1495, 1500, 1505, 1520, 1600, 2000, 4000, 16000, 60000):
+        for rest in (0, 4, 19, 20, 21, 40):
+            pkt = long_hdr("initial", hc, pc, token=rb(tl)) + _varint(rest, 2) + rb(rest)
+            d = pkt + bytes(max(0, pad_to - len(pkt)))
+            out.append(("token", "token=%d rest=%d" % (tl, rest), d))
+    for tl_decl in (1, 64, 1500, 16383, 65535, (1 << 30) - 1):
+        pkt = long_hdr("initial", hc, pc)[:-1] + _varint(tl_decl) + rb(20)
+        out.append(("token", "token-declared=%d actual<=20" % tl_decl, pkt + bytes(max(0, pad_to - len(pkt)))))
+
+    # e. genuine datagrams, truncated
+    for gi, g in enumerate(genuine[:12]):
+        n = len(g)
+        cut = set(range(0, min(n, 90))) | set(range(max(0, n - 45), n)) | set(range(90, n, 13 if batch.get("n_random", 0) > 1000 else 41))
+        for L in sorted(cut):
+            out.append(("truncated-genuine", "datagram#%d[%d] cut at %d" % (gi, n, L), g[:L]))
+        # genuine packet followed by a remainder too short to be a packet
+        for extra in (1, 5, 19, 20, 21):
+            if n > 25:
+                out.append(("truncated-genuine", "datagram#%d cut at %d + %d trailing bytes" % (gi, n - 17, extra), g[: n - 17] + rb(extra)))
+
+    # f. random bytes
+    for i in range(batch.get("n_random", 300)):
+        L = rng.choice([rng.randrange(0, 64), rng.randrange(0, 2049), rng.randrange(0, 2049), rng.choice([1200, 1500, 1501, 9000, 65527])])
+        d = bytearray(rb(L))
+        if L and rng.random() < 0.6:
+            d[0] = rng.choice([0x40, 0x41, 0x43, 0x5F, 0xC0, 0xC3, 0xD0, 0xE3, 0xF0, 0xFF, 0x80])
+            if d[0] & 0x80 and L >= 5 and rng.random() < 0.8:
+                d[1:5] = ver.to_bytes(4, "big")
+            elif not d[0] & 0x80 and rng.random() < 0.7:
+                d[1 : 1 + len(hc)] = hc[: max(0, L - 1)]
+        out.append(("random", "len=%d first=%s" % (L, ("%02x" % d[0]) if L else "-"), bytes(d)))
+    return out
+
+
+def _w3_auth_payloads(rng, many):
+    """frame payloads for authentic packets: truncated / oversized / lying fields"""
+    pl = []
+    for ftype in list(range(0x00, 0x1F)) + [0x30, 0x31, 0x40, 0xFF]:
+        for tail in ((0, 1, 2, 3, 8) if many else (0, 2)):
+            pl.append(bytes([ftype]) + rng.getrandbits(8 * tail).to_bytes(tail, "big") if tail else bytes([ftype]))
+    pl.append(b"\x06\x00\x7f\xff" + b"x" * 10)  # CRYPTO length beyond packet
+    pl.append(b"\x0a\x00\xbf\xff\xff\xff" + b"y" * 5)  # STREAM length beyond packet
+    pl.append(b"\x18\x05\x00\xff" + b"z" * 30)  # NEW_CONNECTION_ID with length 255
+    pl.append(b"\x1c\x00\x00\xff\xff\xff\xff\xff\xff\xff\xff")  # CONNECTION_CLOSE with huge reason length
+    pl.append(b"\x02\xc0\x00\x00\x00\x00\x00\x00\x05\x00\xff\xff")  # ACK with huge range count
+    pl.append(b"\x31\xff\xff" + b"d" * 3)  # DATAGRAM with length beyond
+    return pl
+
+
+def gen_w3(batch, res, sb, watch, use_fork):
+    from ..simnet import CLIENT_ADDR, SERVER_ADDR
+
+    SeededUrandom("w3/%d" % batch["seed"]).install()
+    book = Contracts().install()
+    pair, victim, genuine = _w3_prepare(batch)
+    role, state = batch["role"], batch["state"]
+    # the preparation itself is library traffic through the proxies
+    prep_breaches = book.drain()
+    for sig, what in prep_breaches:
+        res.violation(sig, "while preparing the connection state: " + what, batch)
+    res.count("boundary_calls_checked", book.calls)
+    book.calls = 0
+    dgrams = _w3_datagrams(batch, pair, victim, genuine)
+    n_plain = len(dgrams)
+    auth = []
+    pup = None
+    if state == "connected":
+        from ..puppet import Puppet
+
+        auth = _w3_auth_payloads(random.Random("w3auth/%d" % batch["seed"]), batch.get("n_random", 0) > 1000)
+        pup = Puppet(pair, me="server" if role == "client" else "client")
+    items = [("dgram", i) for i in range(n_plain)] + [("auth", i) for i in range(len(auth))]
+    cases = Indexed(items, batch.get("only"))
+    addr = CLIENT_ADDR if role == "server" else SERVER_ADDR
+    c = constants()
+
+    def setup():
+        return {"now": pair.now + 1.0}
+
+    def group_of(item):
+        kind, i = item[1]
+        return "w3:" + (dgrams[i][0] if kind == "dgram" else "auth")
+
+    def fn(ctx, item, local):
+        idx, (kind, i) = item
+        case = _case_of(batch, idx)
+        if kind == "dgram":
+            k, desc, data = dgrams[i]
+        else:
+            k, desc = "auth", "authentic 1-RTT packet, payload %s" % auth[i][:12].hex()
+            data = pup.packet("1rtt", auth[i], pn=pup.next_pn["A"] + i)
+        ctx["now"] += 0.001
+        before = book.calls
+        rej_before = book.rejected
+        outcome = "returned"
+        try:
+            victim.receive_datagram(data, addr, now=ctx["now"])
+            victim.datagrams_to_send(now=ctx["now"])
+            while victim.next_event() is not None:
+                pass
+        except Exception as exc:  # any Python exception is a permitted outcome for this property (C05 judges it)
+            outcome = "exception:" + type(exc).__name__
+            local.count("obs_w3_api_exception")
+        reached = book.calls - before
+        local.evaluations += 1
+        local.count("w3_datagrams")
+        local.count("boundary_calls_checked", reached)
+        for sig, what in book.drain():
+            local.violation(sig, "%s datagram (%s, %d bytes) to %s in state %s: %s" % (k, desc, len(data), role, state, what), case)
+        if reached:
+            local.count("w3_reached_crypto")
+            if book.rejected > rej_before:
+                local.count("w3_rejected_by_helper")
+            sz = len(data)
+            lb = str(sz) if sz < 48 else _lenb(sz, c)
+            local.nontrivial.add("w3:%s:%s:%s:%s:%s:%s" % (role, state, k, lb, "rej" if book.rejected > rej_before else "acc", outcome))
+        if idx % 197 == 0:
+            local.sample({"w3": "%s/%s" % (role, state), "kind": k, "desc": desc, "bytes": len(data), "helper_calls": reached, "outcome": outcome})
+        if victim._state.name in ("CLOSING", "DRAINING", "TERMINATED"):
+            local.count("w3_victim_closed_restart")
+            return "victim-closed"
+
+    sb.max_reforks = 60 + len(auth)
+    sb.run(cases, fn, lambda item: _case_of(batch, item[0]), setup=setup, use_fork=use_fork, group_of=group_of)
+
+
+# =====================================================================================
+# W4 - packets the library builds for every max_datagram_size
+# =====================================================================================
+
+
+def _w4_one(cfg, seed, book, local, case):
+    """handshake + bulk transfer in both directions + close, for one configuration.
+    Any Python exception from the API ends the run and is a permitted outcome."""
+    from aioquic.buffer import Buffer
+    from aioquic.quic.connection import QuicConnection
+    from aioquic.quic.packet import encode_quic_retry, pull_quic_header
+
+    from ..simnet import CLIENT_ADDR, SERVER_ADDR, make_configs
+
+    SeededUrandom("w4/%d/%d" % (seed, cfg["mds"])).install()
+    v = cfg["version"]
+    opts = {"mds_client": cfg["mds"], "mds_server": cfg["mds"], "cipher_suites_client": [cfg["suite"]],
+            "versions_client": [v, "v1"] if v == "v2" else ["v1", "v2"], "versions_server": ["v2", "v1"] if v == "v2" else ["v1", "v2"],
+            "original_version": v, "max_data_client": 4 << 20, "max_data_server": 4 << 20,
+            "max_stream_data_client": 4 << 20, "max_stream_data_server": 4 << 20}
+    ccfg, scfg = make_configs(opts)
+    ccfg.connection_id_length = cfg["cid"]
+    scfg.connection_id_length = cfg["cid"]
+    st = {"now": 0.0, "phase": "construct", "exc": None, "dgrams": 0, "max_dgram": 0}
+    calls0 = book.calls
+
+    def api(phase, f, *a, **kw):
+        st["phase"] = phase
+        return f(*a, **kw)
+
+    client = server = None
+    try:
+        client = api("client-init", QuicConnection, configuration=ccfg)
+        api("connect", client.connect, SERVER_ADDR, now=0.0)
+        retry_done = cfg["token"] == 0
+        retry_scid = None
+        odcid = client.original_destination_connection_id
+        done_c = done_s = False
+        sent_bulk = False
+        closed = False
+        got = {"client": 0, "server": 0}
+        bulk = 32000
+        for rnd in range(80):
+            st["now"] += 0.02
+            out = api("client.datagrams_to_send", client.datagrams_to_send, now=st["now"])
+            for data, _addr in out:
+                st["dgrams"] += 1
+                st["max_dgram"] = max(st["max_dgram"], len(data))
+                if not retry_done:
+                    # what a server front-end with address validation does: answer the first Initial with a Retry
+                    hdr = pull_quic_header(Buffer(data=data), host_cid_length=cfg["cid"])
+                    retry_scid = bytes((0x5C + i) & 0xFF for i in range(max(cfg["cid"], 8)))
+                    token = bytes((0x70 + 3 * i) & 0xFF for i in range(cfg["token"]))
+                    retry = encode_quic_retry(version=hdr.version, source_cid=retry_scid, destination_cid=hdr.source_cid,
+                                              original_destination_cid=hdr.destination_cid, retry_token=token)
+                    api("client.receive_datagram(retry)", client.receive_datagram, retry, SERVER_ADDR, now=st["now"])
+                    retry_done = True
+                    break
+                if server is None:
+                    server = api("server-init", QuicConnection, configuration=scfg, original_destination_connection_id=odcid,
+                                 retry_source_connection_id=retry_scid)
+                api("server.receive_datagram", server.receive_datagram, data, CLIENT_ADDR, now=st["now"])
+            if server is not None:
+                st["now"] += 0.02
+                for data, _addr in api("server.datagrams_to_send", server.datagrams_to_send, now=st["now"]):
+                    st["dgrams"] += 1
+                    st["max_dgram"] = max(st["max_dgram"], len(data))
+                    api("client.receive_datagram", client.receive_datagram, data, SERVER_ADDR, now=st["now"])
+            for name, conn in (("client", client), ("server", server)):
+                if conn is None:
+                    continue
+                while True:
+                    ev = api(name + ".next_event", conn.next_event)
+                    if ev is None:
+                        break
+                    tn = type(ev).__name__
+                    if tn == "HandshakeCompleted":
+                        if name == "client":
+                            done_c = True
+                        else:
+                            done_s = True
+                    elif tn == "StreamDataReceived":
+                        got[name] += len(ev.data)
+                    elif tn == "ConnectionTerminated":
+                        closed = True
+            for name, conn in (("client", client), ("server", server)):
+                if conn is not None:
+                    t = api(name + ".get_timer", conn.get_timer)
+                    if t is not None and t <= st["now"]:
+                        api(name + ".handle_timer", conn.handle_timer, now=st["now"])
+            if done_c and done_s and not sent_bulk:
+                sent_bulk = True
+                sid = api("client.stream", client.get_next_available_stream_id)
+                api("client.send_stream_data", client.send_stream_data, sid, prf_bytes("w4c", bulk), end_stream=True)
+                sid2 = api("server.stream", server.get_next_available_stream_id)
+                api("server.send_stream_data", server.send_stream_data, sid2, prf_bytes("w4s", bulk), end_stream=True)
+                api("client.send_datagram_frame", client.send_datagram_frame, prf_bytes("w4d", 900))
+            if sent_bulk and got["client"] >= bulk and got["server"] >= bulk and not closed:
+                api("client.close", client.close, error_code=0, reason_phrase="done " * 20)
+                closed = True
+                st["closing_round"] = rnd
+            if closed and rnd >= st.get("closing_round", rnd) + 2:
+                break
+        st["result"] = "transferred+closed" if (closed and got["client"] >= bulk) else ("handshake-only" if (done_c and done_s) else "no-handshake")
+    except Exception as exc:  # permitted outcome: the configuration cannot be served and says so
+        st["exc"] = exc
+        st["result"] = "python-exception:%s@%s" % (type(exc).__name__, st["phase"])
+        local.count("obs_w4_python_exception")
+    n_calls = book.calls - calls0
+    local.evaluations += 1
+    local.count("w4_configs")
+    local.count("w4_packets_built", st["dgrams"])
+    local.count("boundary_calls_checked", n_calls)
+    desc = "max_datagram_size=%d suite=%s cid=%d token=%d %s" % (cfg["mds"], cfg["suite"], cfg["cid"], cfg["token"], cfg["version"])
+    for sig, what in book.drain():
+        local.violation(sig, desc + ": " + what, case)
+    if st["dgrams"] >= 2:
+        mds = cfg["mds"]
+        c = constants()
+        local.nontrivial.add("w4:mds%s:%s:cid%d:tok%d:%s:%s" % (_lenb(mds, c) if mds <= 1700 else str(mds), cfg["suite"][:7], cfg["cid"], cfg["token"], cfg["version"], st["result"].split("@")[0]))
+    local.count("w4_result_" + st["result"].split(":")[0].replace("+", "_").replace("-", "_"))
+    return {"config": desc, "result": st["result"], "datagrams": st["dgrams"], "largest_datagram": st["max_dgram"],
+            "largest_encrypt_plaintext": book.max_encrypt, "largest_apply_total": book.max_apply, "helper_calls": n_calls,
+            "exception": repr(st["exc"])[:200] if st["exc"] else None}
+
+
+def gen_w4(batch, res, sb, watch, use_fork):
+    cfgs = batch["configs"]
+    cases = Indexed(cfgs, batch.get("only"))
+    holder = {}
+
+    def setup():
+        holder["book"] = Contracts().install()
+        return holder
+
+    def fn(ctx, item, local):
+        idx, cfg = item
+        book = ctx["book"]
+        book.max_encrypt = book.max_apply = 0
+        info = _w4_one(cfg, batch["seed"], book, local, _case_of(batch, idx))
+        if idx % 3 == 0 or info["exception"]:
+            local.sample(info, limit=4)
+
+    sb.group_cap = 1000
+    sb.run(cases, fn, lambda item: _case_of(batch, item[0]), setup=setup, use_fork=use_fork, group_of=lambda item: "w4")
+
+
 GENERATORS = {
     "probe": gen_probe,
     "w1_grid": gen_w1_grid,
@@ -1170,4 +1602,6 @@ GENERATORS = {
     "w2_apply": gen_w2_apply,
     "w2_remove": gen_w2_remove,
     "w2_ctor": gen_w2_ctor,
+    "w3": gen_w3,
+    "w4": gen_w4,
 }
